@@ -5,7 +5,7 @@ import itertools
 import json
 
 from ..base import Prop
-from ..common import answer, dt_to_us, ev_tuple, mk_event, p_ev, p_list, us_to_dt
+from ..common import answer, dt_to_us, ev_tuple, mk_event, p_ev, p_list, us_to_dt, warm_up
 
 U = 1000  # grid unit: 1 ms (Event timestamps have millisecond resolution)
 T0 = 1_600_000_000_000_000  # 2020-09-13T12:26:40Z, a multiple of 1 ms
@@ -253,7 +253,7 @@ class C09(Prop):
             for k in range(n):
                 t += rng.choice([0, 0, U, rng.randint(0, 30) * U]) if touching else rng.randint(0, 30) * U
                 d = rng.choice([0, 1, 999, U, rng.randint(0, 40 * U), rng.randint(0, 40) * U])
-                l.append([rng.randint(1, 10**6) if ids else None, t, d, dat(tag, k)])
+                l.append([rng.choice([0, 0, 1, rng.randint(1, 10**6)]) if ids and rng.random() < 0.2 else rng.randint(1, 10**6) if ids else None, t, d, dat(tag, k)])
                 t += d
                 t = -(-t // U) * U  # next timestamp: first multiple of 1 ms at or after the end
             rng.shuffle(l)
@@ -274,6 +274,8 @@ class C09(Prop):
             c = {"k": "isect", "a": a, "f": f}
             if rng.random() < 0.3:
                 c["tz"] = rng.choice([60, -330, 765])
+            if rng.random() < 0.08:
+                c["warm"] = True  # the same Event objects went through the function before, with other durations
             out.append(("random-isect", c))
             if rng.random() < 0.5:
                 out.append(("random-isect", {"k": "isect", "a": f, "f": a}))
@@ -302,8 +304,10 @@ class C09(Prop):
             return l
 
         for _ in range(ctx.pick(4000, 150000)):
-            out.append(("random-union", {"k": "punion", "a": anylist(rng.randint(0, 7), "a", False),
-                                         "b": anylist(rng.randint(0, 7), "f", False)}))
+            cu = {"k": "punion", "a": anylist(rng.randint(0, 7), "a", False), "b": anylist(rng.randint(0, 7), "f", False)}
+            if rng.random() < 0.08:
+                cu["warm"] = True
+            out.append(("random-union", cu))
 
         for _ in range(ctx.pick(300, 5000)):
             a = anylist(rng.randint(0, 5), "a", False)
@@ -355,6 +359,8 @@ class C09(Prop):
             A = [_mk(e, case, "a") for e in case["a"]]
             F = A if case.get("alias") else [_mk(e, case, "f") for e in case["f"]]
             A0, F0 = list(A), list(F)
+            if case.get("warm"):
+                warm_up(lambda: m.filter_period_intersect(A, F), list({id(o): o for o in A + F}.values()))
             owned = set()
             for ev in A + F:
                 owned |= _mutables(ev)
@@ -380,6 +386,8 @@ class C09(Prop):
 
         A = [_mk(e, case, "a") for e in case["a"]]
         B = A if case.get("alias") else [_mk(e, case, "b") for e in case["b"]]
+        if case.get("warm"):
+            warm_up(lambda: m.period_union(A, B), list({id(o): o for o in A + B}.values()))
         try:
             r = m.period_union(A, B)
         except Exception as e:
